@@ -18,7 +18,9 @@ reg("C01", "bounded-exhaustive exploration of the real GLRParser over all small 
     "grammars x lexeme maps x table kinds x inputs, against a character-level "
     "chart/SPPF reference model",
     "Every grammar with <= 3 (quick) / <= 4 (thorough) productions over two "
-    "nonterminals, five lexeme maps, LALR and SLR tables and every input up to "
+    "nonterminals (quick also: the complete space of three nonterminals over "
+    "one terminal and seed-rotated windows of the rhs<=3 and three-nonterminal "
+    "spaces), six lexeme maps, LALR and SLR tables and every input up to "
     "length 4/5 is parsed by the real GLRParser; acceptance and every returned "
     "tree are compared with an independent chart reference. Exhaustive within "
     "the stated bounds, silent about larger grammars/inputs.",
